@@ -106,6 +106,12 @@ pub enum Base {
     Batch,
     /// complete everything in flight (descending), then poll.
     ReverseBatch,
+    /// poll when woken, else complete the highest-numbered function in flight.
+    EagerHigh,
+    /// poll when woken; otherwise complete the lowest in-flight function that is NOT in
+    /// `RunCfg::avoid` (a maximum antichain), and members of it only when nothing else is left:
+    /// keeps as many mutually independent functions in flight as the graph allows.
+    Avoid,
 }
 
 #[derive(Clone, Debug, PartialEq, Eq, Hash, Serialize, Deserialize)]
@@ -136,6 +142,9 @@ pub struct RunCfg {
     /// depend on it.
     #[serde(default)]
     pub opts_order: u8,
+    /// The set `Base::Avoid` keeps in flight.
+    #[serde(default)]
+    pub avoid: Vec<bool>,
 }
 
 /// The three StreamOpts builder steps in one of the 6 possible call orders.
@@ -178,6 +187,7 @@ impl RunCfg {
             budgets: vec![],
             budget_polls: 0,
             opts_order: 0,
+            avoid: vec![],
         }
     }
 
@@ -346,6 +356,7 @@ impl<'a, Fut: Future<Output = Out>> Driver<'a, Fut> {
         self.acts.clear();
         let mut lowest = None;
         let mut highest = None;
+        let mut lowest_outside = None;
         {
             let s = sh.borrow();
             if self.first || woken {
@@ -355,6 +366,9 @@ impl<'a, Fut: Future<Output = Out>> Driver<'a, Fut> {
                 if s.started[i] > 0 && !s.released[i] {
                     if lowest.is_none() {
                         lowest = Some(self.acts.len());
+                    }
+                    if lowest_outside.is_none() && !cfg.avoid.get(i).copied().unwrap_or(false) {
+                        lowest_outside = Some(self.acts.len());
                     }
                     highest = Some(self.acts.len());
                     self.acts.push(Act::Complete(i));
@@ -391,6 +405,20 @@ impl<'a, Fut: Future<Output = Out>> Driver<'a, Fut> {
             Base::Eager | Base::AllImmediate => 0,
             Base::Batch => lowest.unwrap_or(0),
             Base::ReverseBatch => highest.unwrap_or(0),
+            Base::Avoid => {
+                if self.first || woken {
+                    0
+                } else {
+                    lowest_outside.or(lowest).unwrap_or(0)
+                }
+            }
+            Base::EagerHigh => {
+                if self.first || woken {
+                    0
+                } else {
+                    highest.unwrap_or(0)
+                }
+            }
         };
         let c = sh.borrow_mut().choose(self.acts.len(), default);
         match self.acts[c] {
